@@ -94,6 +94,9 @@ struct Resp {
     status: u16,
     declared: Option<usize>,
     body: Vec<u8>,
+    /// the Content-Length header carries something that is not a length (overflowing
+    /// digits, a sign, letters): the client may treat it as absent or reject the response
+    cl_unparsable: bool,
 }
 
 fn gen_response(rng: &mut Rng) -> Resp {
@@ -119,11 +122,45 @@ fn gen_response(rng: &mut Rng) -> Resp {
     let with_cl = rng.chance(3, 4);
     let mut head = format!("HTTP/1.1 {status} {reason}\r\n");
     let mut hdrs: Vec<String> = vec!["Content-Type: application/vnd.apache.arrow.stream".into(), format!("X-QE-Rows: {}", rng.below(1000)), "Connection: close".into()];
+    // one declared length in five does not tell the truth: larger than the body (by a few
+    // bytes, or near the integer limits, where length arithmetic overflows), smaller, or not
+    // a length at all. Drawn from a forked stream.
+    let mut declared: Option<usize> = if with_cl { Some(blen) } else { None };
+    let mut cl_text = blen.to_string();
+    let mut cl_unparsable = false;
+    let mut lr = rng.fork(0xc1e7);
+    if with_cl && lr.chance(1, 5) {
+        match lr.below(9) {
+            0 => declared = Some(blen + 1 + lr.usize(10)),
+            1 => declared = Some(blen.saturating_sub(1 + lr.usize(5))),
+            2 => declared = Some(1usize << 32),
+            3 => declared = Some(1usize << 62),
+            4 => declared = Some(usize::MAX),
+            5 => declared = Some(usize::MAX - lr.usize(200)),
+            6 => {
+                cl_text = "99999999999999999999999".into();
+                cl_unparsable = true;
+            }
+            7 => {
+                cl_text = "-1".into();
+                cl_unparsable = true;
+            }
+            _ => {
+                cl_text = "12abc".into();
+                cl_unparsable = true;
+            }
+        }
+        if !cl_unparsable {
+            cl_text = declared.unwrap().to_string();
+        } else {
+            declared = None;
+        }
+    }
     if with_cl {
         let name = *rng.pick(&["Content-Length", "content-length", "CONTENT-LENGTH", "Content-length"]);
-        hdrs.push(format!("{name}: {blen}"));
+        hdrs.push(format!("{name}: {cl_text}"));
         if rng.chance(1, 8) {
-            hdrs.push(format!("{name}: {blen}")); // an identical duplicate
+            hdrs.push(format!("{name}: {cl_text}")); // an identical duplicate
         }
     }
     rng.shuffle(&mut hdrs);
@@ -135,7 +172,7 @@ fn gen_response(rng: &mut Rng) -> Resp {
     let header_len = head.len();
     let mut bytes = head.into_bytes();
     bytes.extend_from_slice(&body);
-    Resp { bytes, header_len, status, declared: if with_cl { Some(blen) } else { None }, body }
+    Resp { bytes, header_len, status, declared, body, cl_unparsable }
 }
 
 /// What the client must return for `delivered` bytes followed by `ending`.
@@ -145,6 +182,9 @@ enum Expect {
     Ok(u16),
     Err,
     TimedOut,
+    /// no length could be declared: either reading (Ok with what arrived, or Err) is
+    /// acceptable; a panic or a wait past the timeout is not
+    Either,
 }
 
 fn model(r: &Resp, delivered: usize, ending: &str) -> Expect {
@@ -159,6 +199,9 @@ fn model(r: &Resp, delivered: usize, ending: &str) -> Expect {
         return Expect::Err;
     }
     let body_delivered = delivered - r.header_len;
+    if r.cl_unparsable {
+        return Expect::Either;
+    }
     match r.declared {
         Some(n) if body_delivered < n => Expect::Err,
         _ => Expect::Ok(r.status),
@@ -278,6 +321,7 @@ pub fn run_c16(_p: &str, tier: Tier, run_seed: u64, _ov: &Value) -> RunOut {
                             Expect::TimedOut => {
                                 out.violations.push(viol("never-hangs-past-timeout", "ok-from-a-stalled-peer", feats("stall"), format!("peer stalled after {k} bytes but the client returned Ok"), ctxj));
                             }
+                            Expect::Either => out.bump("probe.unparsable_length_answered"),
                         }
                     }
                     Ok(Err(e)) => {
@@ -296,6 +340,7 @@ pub fn run_c16(_p: &str, tier: Tier, run_seed: u64, _ov: &Value) -> RunOut {
                                     out.bump("probe.timeout_fired_exactly");
                                 }
                             }
+                            Expect::Either => out.bump("probe.unparsable_length_rejected"),
                         }
                     }
                 }
